@@ -257,6 +257,9 @@ mod reclaim;
 mod set;
 mod set_ref;
 
+#[cfg(flurry_verif)]
+pub mod verif;
+
 #[cfg(feature = "rayon")]
 mod rayon_impls;
 
